@@ -71,6 +71,18 @@ def one_trace(tid, rng, base_kind, thorough):
     ev = []
     with warnings.catch_warnings():
         warnings.simplefilter("ignore")
+        if rng.random() < 0.4:
+            # an earlier life of the same instance: other depth, other rows, every accessor called once - the fit that is
+            # traced below must not see anything of it
+            t["sig"] += " refit"
+            n0 = rng.randint(4, n)
+            model.set_params(max_depth=rng.choice([1, 2, 8]))
+            try:
+                model.fit(Xfit[:n0][::-1], numpy.array([lab[i % 2] for i in range(n0)]))
+                model.get_leaves_index(), model.predict(Xfit[:3]), model.decision_path(Xfit[:3]), model.predict_proba(Xfit[:3])
+            except Exception:
+                pass
+            model.set_params(max_depth=params["max_depth"])
         with Sink() as raw:
             try:
                 ret = model.fit(Xfit, y)
